@@ -267,9 +267,23 @@ class _SchedBehaviour:
         return value
 
 
+_WATCH = [None]
+
+
+def _watch():
+    # one Watch shared by every scheduler of the tree that asks for one (the usual pattern)
+    if _WATCH[0] is None:
+        from asynciojobs import Watch
+        _WATCH[0] = Watch()
+    return _WATCH[0]
+
+
 def _sched_kwargs(spec):
     if spec.get('late_attrs'):
         return {}
+    if spec.get('watch'):
+        return dict(jobs_window=spec['window'], timeout=spec['timeout'],
+                    shutdown_timeout=spec['sdt'], verbose=spec['verbose'], watch=_watch())
     return dict(jobs_window=spec['window'], timeout=spec['timeout'],
                 shutdown_timeout=spec['sdt'], verbose=spec['verbose'])
 
@@ -285,6 +299,8 @@ def _late_attrs(obj, spec):
         obj.timeout = spec['timeout']
         obj.shutdown_timeout = spec['sdt']
         obj.verbose = spec['verbose']
+        if spec.get('watch'):
+            obj.watch = _watch()
     if hasattr(obj, 'critical'):
         obj.critical = spec['critical']
         obj.forever = spec['forever']
@@ -384,6 +400,7 @@ class Trace:
         self.explicit_shutdown = None
         self.loop_exceptions = []
         self.stdout = ''
+        self.rerun = False          # the recorded run is the second run of the same objects
 
     def digest(self):
         import hashlib
@@ -408,6 +425,7 @@ def run_scenario(spec, sampling=False, run_on=True, explicit_shutdown=False,
     trace = Trace()
     out = io.StringIO()
     registry = {}
+    _WATCH[0] = None
     try:
         with contextlib.redirect_stdout(out):
             top = build(spec, registry)
@@ -447,6 +465,50 @@ def run_scenario(spec, sampling=False, run_on=True, explicit_shutdown=False,
                 rec.sample()
         if sampling or inspect:
             loop.quiescent_cb = on_quiescent
+
+        if spec.get('rerun'):
+            # the same scheduler objects are run a first time to completion; the run that
+            # is recorded and judged is the SECOND one ("in any run of any scheduler")
+            with contextlib.redirect_stdout(out):
+                try:
+                    top.run()
+                    first_ok = True
+                except (Deadlock, Horizon):
+                    first_ok = False
+                except BaseException:
+                    first_ok = True
+                if first_ok:
+                    try:
+                        loop.run_until_complete(asyncio.sleep(span))
+                    except (Deadlock, Horizon):
+                        first_ok = False
+            if first_ok and not [t for t in loop.tasks if not t.done()]:
+                trace.rerun = True
+                rec.events = []
+                rec.samples = []
+                loop.tasks = []
+                loop.horizon = loop.time() + 2 * span + 10
+            else:
+                # cannot start over cleanly: judge a fresh single run instead
+                plain = dict(spec)
+                plain['rerun'] = False
+                _ps.time = saved_time
+                loop.quiescent_cb = None
+                loop.on_cancel_request = None
+                loop.on_task_created = None
+                for task in loop.tasks:
+                    if not task.done():
+                        task.cancel()
+                        task._log_destroy_pending = False
+                for obj in registry.values():
+                    if isinstance(obj, VCoJob):
+                        obj.v_close()
+                registry = {}
+                try:
+                    loop.close()
+                except BaseException:
+                    pass
+                return run_scenario(plain, sampling, run_on, explicit_shutdown, keep_stdout)
 
         with contextlib.redirect_stdout(out):
             try:
